@@ -29,14 +29,47 @@ class Sym:
 
 
 class Obj:
-    """A placeholder object of a known class (a child node, a list element)."""
+    """A placeholder object of a known class (a child node, a list element).  Its own
+    fields are decided lazily, only when the evaluated method looks at them."""
 
-    def __init__(self, cls: str, tag: Optional[str] = None):
+    def __init__(self, cls: str, tag: Optional[str] = None, preset: Optional[Dict[str, Any]] = None, chain: Tuple[str, ...] = ()):
         self.cls = cls
-        self.tag = tag or cls
+        self.base_tag = tag or cls
+        self.preset = preset or {}
+        self.chain = chain + (cls,)          # classes from the outermost placeholder down to this one
+        self.sub: Dict[str, Any] = {k: _fresh(v) for k, v in self.preset.items()}
+
+    @property
+    def tag(self) -> str:
+        if not self.sub:
+            return self.base_tag
+        inner = ",".join(f"{k}={_short(v)}" for k, v in sorted(self.sub.items()))
+        return f"{self.base_tag}{{{inner}}}"
+
+    def fresh(self) -> "Obj":
+        return Obj(self.cls, self.base_tag, self.preset, self.chain[:-1])
 
     def __repr__(self) -> str:
         return f"<{self.tag}>"
+
+
+def _short(v: Any) -> str:
+    if isinstance(v, Obj):
+        return v.cls + (("{" + ",".join(f"{k}={_short(x)}" for k, x in sorted(v.sub.items())) + "}") if v.sub else "")
+    if isinstance(v, list):
+        return f"[{len(v)}]"
+    return repr(v)
+
+
+def _fresh(v: Any) -> Any:
+    if isinstance(v, Obj):
+        return v.fresh()
+    if isinstance(v, list):
+        return [_fresh(x) for x in v]
+    return v
+
+
+MAX_SAME = 2
 
 
 class SelfObj:
@@ -151,6 +184,62 @@ class FmtModel:
         return self._find_method(cls, meth) is not None
 
     # ------------------------------------------------------------- evaluation
+    def call_all(self, cls: str, meth: str, fields: Dict[str, Any], args: List[Any]) -> List[Tuple[Dict[str, Any], str]]:
+        """Evaluate under every combination of lazily decided sub-fields of the child
+        placeholders the method looks at.  Returns [(fields as seen, output)]."""
+        results = []
+        pending: List[List[int]] = [[]]
+        seen = set()
+        while pending:
+            choices = pending.pop()
+            self._choices = list(choices)
+            self._trace: List[int] = []
+            fresh = {k: _fresh(v) for k, v in fields.items()}
+            out = self.call(cls, meth, fresh, [_fresh(a) for a in args])
+            key = tuple(self._trace)
+            taken = tuple((self._choices + [0] * len(self._trace))[: len(self._trace)])
+            if taken in seen:
+                continue
+            seen.add(taken)
+            results.append((fresh, out))
+            # schedule the alternatives of every choice point met on this run
+            for i, size in enumerate(self._trace):
+                for alt in range(1, size):
+                    if i >= len(choices):
+                        nxt = list(taken[:i]) + [alt]
+                        if tuple(nxt) not in seen:
+                            pending.append(nxt)
+            if len(results) > 5000:
+                raise AnalysisError("shape enumeration exceeded its budget")
+        self._choices = []
+        return results
+
+    def _decide(self, obj: "Obj", attr: str) -> Any:
+        if attr in obj.sub:
+            return obj.sub[attr]
+        ann = None
+        for f, a, _ in self.fields(obj.cls):
+            if f == attr:
+                ann = a
+        if ann is None:
+            return Sym(f"<{obj.tag}.{attr}>")
+        dom = self.domain(f"{obj.base_tag}.{attr}", ann)
+        # bound the nesting: a class that already occurs MAX_SAME times on the way down is not offered again
+        bounded = [d for d in dom if not (isinstance(d, Obj) and obj.chain.count(d.cls) >= MAX_SAME)]
+        if bounded:
+            dom = bounded
+        for d in dom:
+            if isinstance(d, Obj):
+                d.chain = obj.chain + (d.cls,)
+        i = len(getattr(self, "_trace", []))
+        pick = self._choices[i] if i < len(getattr(self, "_choices", [])) else 0
+        if not hasattr(self, "_trace"):
+            self._trace = []
+        self._trace.append(len(dom))
+        v = _fresh(dom[min(pick, len(dom) - 1)])
+        obj.sub[attr] = v
+        return v
+
     def call(self, cls: str, meth: str, fields: Dict[str, Any], args: List[Any]) -> str:
         fn = self._find_method(cls, meth)
         if fn is None:
@@ -185,6 +274,14 @@ class FmtModel:
             if isinstance(st, ast.If):
                 self._block(st.body if self._truth(self._ev(st.test, env)) else st.orelse, env)
                 continue
+            if isinstance(st, ast.While) and not st.orelse:
+                n = 0
+                while self._truth(self._ev(st.test, env)):
+                    self._block(st.body, env)
+                    n += 1
+                    if n > 16:
+                        raise AnalysisError(f"loop in a format helper does not finish on the bounded shape domain: {norm(st.test)[:60]}")
+                continue
             raise AnalysisError(f"statement shape not modelled in a format method: {norm(st)[:60]}")
 
     def _truth(self, v: Any) -> bool:
@@ -207,6 +304,8 @@ class FmtModel:
                 # property (ClassDecl.classkey) - not used by format methods
                 raise AnalysisError(f"{base.cls}.{e.attr} is not a field")
             if isinstance(base, Obj):
+                if base.cls in self.classes:
+                    return self._decide(base, e.attr)
                 return Sym(f"<{base.tag}.{e.attr}>")
             raise AnalysisError(f"attribute access not modelled: {norm(e)}")
         if isinstance(e, ast.JoinedStr):
@@ -220,16 +319,16 @@ class FmtModel:
         if isinstance(e, ast.IfExp):
             return self._ev(e.body if self._truth(self._ev(e.test, env)) else e.orelse, env)
         if isinstance(e, ast.BoolOp):
-            vals = [self._ev(v, env) for v in e.values]
-            if isinstance(e.op, ast.And):
-                for v in vals:
-                    if not self._truth(v):
-                        return v
-                return vals[-1]
-            for v in vals:
-                if self._truth(v):
+            # short-circuit, as Python does (a later operand may only be meaningful
+            # once an earlier isinstance has narrowed the object)
+            v = None
+            for sub in e.values:
+                v = self._ev(sub, env)
+                if isinstance(e.op, ast.And) and not self._truth(v):
                     return v
-            return vals[-1]
+                if isinstance(e.op, ast.Or) and self._truth(v):
+                    return v
+            return v
         if isinstance(e, ast.UnaryOp) and isinstance(e.op, ast.Not):
             return not self._truth(self._ev(e.operand, env))
         if isinstance(e, ast.BinOp) and isinstance(e.op, ast.Add):
@@ -252,6 +351,16 @@ class FmtModel:
                 if v is None:
                     return False
                 raise AnalysisError(f"isinstance on a non-object in a format method: {norm(e)}")
+            if isinstance(f, ast.Name) and self.m.has_func(f.id) and f.id != "tokfmt":
+                fn = self.m.func(f.id)
+                env2: Dict[str, Any] = {}
+                for a, x in zip(fn.args.args, e.args):
+                    env2[a.arg] = self._ev(x, env)
+                try:
+                    self._block(fn.body, env2)
+                except _Return as r:
+                    return r.v
+                return None
             if isinstance(f, ast.Name) and f.id == "tokfmt":
                 v = self._ev(e.args[0], env)
                 if isinstance(v, list):
